@@ -125,8 +125,18 @@ def e2e_state_cases(rng, tier):
     return out
 
 
+PKCE_VERIFIERS = ["v" * 43, "A-._~" * 10, "-" * 43, "_" * 128, "~." * 30, "0123456789" * 5, "dBjftJeZ4CVP-mB92K27uhbUJU1p1r_wW1gFWFOEjXk", "a-" * 64, "Z" * 128,
+                  # … and strings RFC 7636 does not admit as verifiers: the server must refuse them
+                  "v" * 42, "v" * 129, "v" * 42 + "+", "v" * 42 + " ", "v" * 42 + "=", "é" * 43]
+
+
+def e2e_pkce_cases(rng, tier):
+    """PKCE end to end: the client's authorization URL and token request against the real provider with the RFC 7636 extension required"""
+    return [{"op": "e2e_pkce", "verifier": v, "method": m, "state": st} for v in PKCE_VERIFIERS for m in ("S256", "plain") for st in ("S1", "s 2&x=y")]
+
+
 def cases(rng, tier):
-    return _cases(rng, tier) + e2e_jwt_cases(rng, tier)
+    return _cases(rng, tier) + e2e_jwt_cases(rng, tier) + e2e_pkce_cases(rng, tier)
 
 
 def _cases(rng, tier):
@@ -284,6 +294,8 @@ def impl(c):
         return e2e_jwtauth(c)
     if op == "e2e_assertion":
         return e2e_assertion(c)
+    if op == "e2e_pkce":
+        return e2e_pkce(c)
     raise AssertionError(op)
 
 
@@ -390,6 +402,73 @@ def e2e(c):
             s, rec = mk(c)
             _drive(s, c, is_async)
             out[name] = [_server_view(r) for r in rec]
+        except Exception as e:
+            out[name] = {"raised": type(e).__name__ + ": " + str(e)[:100]}
+    return out
+
+
+def e2e_pkce(c):
+    import memserver as ms
+    import httpx, requests
+    from requests.adapters import BaseAdapter
+    from authlib.integrations.requests_client import OAuth2Session
+    from authlib.integrations.httpx_client import OAuth2Client, AsyncOAuth2Client
+    from authlib.integrations.base_client.errors import OAuthError
+    out = {}
+    for name in ("requests", "httpx", "async"):
+        store, srv, rp = ms.build(oidc=False, pkce_required=True)
+        store.clients["pk"] = ms.Client("pk", "", ["https://c.example/cb"], "a b", ms.ALL_GRANT_TYPES, ms.ALL_RESPONSE_TYPES, "none")
+        seen = {}
+
+        def serve(method, url, headers, body):
+            form = dict(parse_qsl(body, keep_blank_values=True))
+            seen["verifier"] = form.get("code_verifier")
+            r = srv.create_token_response(ms.Req(method, url, form, {k: v for k, v in headers.items() if k.lower() == "authorization"}))
+            return r.status, r.body
+        kw = dict(token_endpoint_auth_method="none", scope="a", redirect_uri="https://c.example/cb")
+        if c["method"] == "S256":
+            kw["code_challenge_method"] = "S256"
+        try:
+            if name == "requests":
+                class A(BaseAdapter):
+                    def send(self, request, **k2):
+                        b = request.body.decode() if isinstance(request.body, bytes) else (request.body or "")
+                        st, body = serve(request.method, request.url, dict(request.headers), b)
+                        r = requests.Response(); r.status_code = st; r.request = request
+                        r._content = json.dumps(body).encode(); r.headers["Content-Type"] = "application/json"
+                        return r
+
+                    def close(self):
+                        pass
+                s = OAuth2Session("pk", None, **kw); s.mount("https://", A())
+            else:
+                def handler(request):
+                    st, body = serve(request.method, str(request.url), dict(request.headers), request.content.decode())
+                    return httpx.Response(st, json=body)
+
+                async def ahandler(request):
+                    return handler(request)
+                s = (AsyncOAuth2Client if name == "async" else OAuth2Client)("pk", None, transport=httpx.MockTransport(ahandler if name == "async" else handler), **kw)
+            extra = {"code_verifier": c["verifier"]} if c["method"] == "S256" else {"code_challenge": c["verifier"], "code_challenge_method": "plain"}
+            url, state = s.create_authorization_url("https://as.example/authorize", state=c["state"], **extra)
+            r = srv.create_authorization_response(ms.Req("GET", url, {}, {}), grant_user=store.users[1])
+            loc = dict(r.headers).get("Location", "")
+            res = {"authorize": r.status, "code_issued": "code=" in loc}
+            if res["code_issued"]:
+                try:
+                    if name == "async":
+                        async def go():
+                            t = await s.fetch_token("https://as.example/token", authorization_response=loc, code_verifier=c["verifier"])
+                            await s.aclose()
+                            return t
+                        tok = asyncio.run(go())
+                    else:
+                        tok = s.fetch_token("https://as.example/token", authorization_response=loc, code_verifier=c["verifier"])
+                    res["token"] = bool(tok.get("access_token"))
+                except OAuthError as e:
+                    res["token"], res["error"] = False, e.error
+                res["verifier_recovered"] = seen.get("verifier") == c["verifier"]
+            out[name] = res
         except Exception as e:
             out[name] = {"raised": type(e).__name__ + ": " + str(e)[:100]}
     return out
@@ -646,6 +725,24 @@ def oracle(c, out):
         ok = [out[n] for n in ("requests", "httpx", "async") if "raised" not in out[n]]
         if len(ok) == 3 and not (ok[0] == ok[1] == ok[2]):
             v.append(("the three client implementations emit different requests (as read by the server half)", {"op": op, "kind": "clients-differ", "auth": c["auth"]}))
+    elif op == "e2e_pkce":
+        import re
+        valid = re.fullmatch(r"[A-Za-z0-9\-._~]{43,128}", c["verifier"]) is not None
+        for name in ("requests", "httpx", "async"):
+            o = out[name]
+            sig = {"op": op, "client": name, "method": c["method"]}
+            if "raised" in o:
+                if valid:
+                    v.append((f"{name} client raised {o['raised']} on an RFC 7636 verifier", dict(sig, kind="client-raised")))
+                continue
+            if valid and not (o.get("code_issued") and o.get("token") and o.get("verifier_recovered")):
+                v.append((f"{name}: PKCE ({c['method']}) with the RFC 7636 verifier {c['verifier']!r}: the provider's answer to the client's own requests was {o}; "
+                          "challenge and verifier were not recovered as the client sent them", dict(sig, kind="pkce-roundtrip")))
+            if not valid and o.get("token"):
+                v.append((f"{name}: a token was issued for the code_verifier {c['verifier']!r}, which RFC 7636 does not admit", dict(sig, kind="pkce-invalid-accepted")))
+        ok = [out[n] for n in ("requests", "httpx", "async") if "raised" not in out[n]]
+        if len(ok) == 3 and not (ok[0] == ok[1] == ok[2]):
+            v.append(("the three client implementations behave differently in the PKCE flow", {"op": op, "kind": "clients-differ"}))
     elif op == "e2e_assertion":
         for name in ("requests", "httpx", "async"):
             o = out[name]
